@@ -67,7 +67,7 @@ class GraphWidget(anywidget.AnyWidget):
     raw_subjects = traitlets.List([])                          # A place to store the original input.
     pre_subjects = traitlets.List([])                          # Store the prepared subjects.
     draggable_points = traitlets.List([]).tag(sync=True)       # points at the first level of nesting are interactive.
-    draggable_points_idxs = traitlets.List([]).tag(sync=True)  # indices of the draggable points in pre_subjects.
+    draggable_points_idxs = traitlets.List([]).tag(sync=True)  # indices of the draggable points in subjects.
     subjects = traitlets.List([]).tag(sync=True)               # Result of evaluating pre_subjects.
 
     def __init__(self, *args, **kwargs):
@@ -114,29 +114,35 @@ class GraphWidget(anywidget.AnyWidget):
         # Encode all the subjects
         return walker(encode(self._get_pre_subjects(), root=True))
 
+    def _draggable(self):
+        """
+        The draggable points, as pairs of their index in pre_subjects and their index in (the encoded) subjects.
+        These differ when an earlier subject is expanded into several, like a multivector with array-valued coefficients.
+        """
+        # TODO: special treatment for CGA as well
+        d = self.algebra.d
+        pga = self.algebra.r == 1 and (d == 3 or d == 4)
+        pairs, position = [], 0
+        for j, s in enumerate(self.pre_subjects):
+            if isinstance(s, MultiVector) and len(s.shape) == 1 and (not pga or s.grades == (d - 1,)):
+                pairs.append((j, position))
+            position += len(walker(encode([s], root=True)))
+        return pairs
+
     @traitlets.default('draggable_points')
     def get_draggable_points(self):
         # Extract the draggable points.
-        d = self.algebra.d
-        points = [s for s in self.pre_subjects if isinstance(s, MultiVector)]
-        if self.algebra.r == 1 and (d == 3 or d == 4):  # PGA
-            # TODO: special treatment for CGA as well
-            points = [p for p in points if p.grades == (d - 1,)]
-        return walker(encode(points))
+        return walker(encode([self.pre_subjects[j] for j, _ in self._draggable()]))
 
     @traitlets.default('draggable_points_idxs')
     def get_draggable_points_idxs(self):
-        # Extract the draggable points. TODO: special treatment for CGA as well
-        d = self.algebra.d
-        if self.algebra.r == 1 and (d == 3 or d == 4):  # PGA
-            return [j for j, s in enumerate(self.pre_subjects)
-                    if isinstance(s, MultiVector) and s.grades == (d - 1,)]
-        return [j for j, s in enumerate(self.pre_subjects) if isinstance(s, MultiVector)]
+        # The front end looks the draggable points up in subjects.
+        return [position for _, position in self._draggable()]
 
     @traitlets.observe('draggable_points')
     def _observe_draggable_points(self, change):
         """ If draggable_points is changed, replace the raw_subjects in place. """
-        self.inplacereplace(self.pre_subjects, zip(self.draggable_points_idxs, change['new']))
+        self.inplacereplace(self.pre_subjects, zip((j for j, _ in self._draggable()), change['new']))
         self.subjects = self.get_subjects().copy()
 
     @traitlets.validate("options")
